@@ -39,6 +39,12 @@ pub enum Mode {
     Eio,
     /// call k fails with ENOSPC; as Eio
     Enospc,
+    /// call k fails with EIO; the error is reported to the caller and the history GOES ON (later
+    /// operations may fail too or be acknowledged); the process dies, losing unsynced bytes, at the
+    /// end of the history.  What was acknowledged - before or after the error - must survive.
+    EioGo,
+    /// as EioGo with ENOSPC
+    EnospcGo,
 }
 
 impl Mode {
@@ -49,6 +55,8 @@ impl Mode {
             Mode::Torn => "torn",
             Mode::Eio => "eio",
             Mode::Enospc => "enospc",
+            Mode::EioGo => "eio-go",
+            Mode::EnospcGo => "enospc-go",
         }
     }
     fn parse(s: &str) -> Mode {
@@ -57,6 +65,8 @@ impl Mode {
             "torn" => Mode::Torn,
             "eio" => Mode::Eio,
             "enospc" => Mode::Enospc,
+            "eio-go" => Mode::EioGo,
+            "enospc-go" => Mode::EnospcGo,
             _ => Mode::A,
         }
     }
@@ -91,7 +101,9 @@ pub fn child_run(args: &[String]) -> i32 {
     let _ = std::fs::create_dir_all(&root);
     shim::CRASH_AT.store(u64::MAX, std::sync::atomic::Ordering::SeqCst);
     shim::FAIL_AT.store(u64::MAX, std::sync::atomic::Ordering::SeqCst);
-    let fault = matches!(mode, "eio" | "enospc");
+    let fault = matches!(mode, "eio" | "enospc" | "eio-go" | "enospc-go");
+    let go = matches!(mode, "eio-go" | "enospc-go");
+    let mut surfaced = false;
     match mode {
         "count" => {}
         "a" => shim::CRASH_AT.store(k, std::sync::atomic::Ordering::SeqCst),
@@ -104,9 +116,9 @@ pub fn child_run(args: &[String]) -> i32 {
             shim::MODE_B.store(2, std::sync::atomic::Ordering::SeqCst);
             shim::CUT_SEL.store(cut, std::sync::atomic::Ordering::SeqCst);
         }
-        "eio" | "enospc" => {
+        "eio" | "enospc" | "eio-go" | "enospc-go" => {
             shim::FAIL_AT.store(k, std::sync::atomic::Ordering::SeqCst);
-            shim::FAIL_ERRNO.store(if mode == "eio" { libc::EIO } else { libc::ENOSPC }, std::sync::atomic::Ordering::SeqCst);
+            shim::FAIL_ERRNO.store(if mode.starts_with("eio") { libc::EIO } else { libc::ENOSPC }, std::sync::atomic::Ordering::SeqCst);
         }
         _ => return 2,
     }
@@ -138,7 +150,7 @@ pub fn child_run(args: &[String]) -> i32 {
                 if client {
                     let _ = writeln!(acks, "A {i}");
                 }
-                if fault && shim::COUNT.load(std::sync::atomic::Ordering::SeqCst) > k {
+                if fault && !surfaced && shim::COUNT.load(std::sync::atomic::Ordering::SeqCst) > k {
                     // The injected failure happened inside this operation and the operation still
                     // reported success (the error was retried, irrelevant - or swallowed).  Die right
                     // here, losing unsynced bytes, before a later successful sync can mask it: what
@@ -149,6 +161,12 @@ pub fn child_run(args: &[String]) -> i32 {
             }
             Ok(Err(f)) => {
                 let _ = writeln!(acks, "E {i} {}", f.signature);
+                if go && shim::COUNT.load(std::sync::atomic::Ordering::SeqCst) > k && !matches!(op, Op::Reopen | Op::SwitchSurface) {
+                    // the failure was reported (by this operation or, as a consequence, by a later
+                    // one); the caller carries on
+                    surfaced = true;
+                    continue;
+                }
                 if fault {
                     // the store reported the injected failure: stop here and lose unsynced bytes
                     crash_lose_all();
@@ -406,6 +424,58 @@ fn expected(h: &History, acked: &[usize], inflight: Option<usize>) -> (driver::M
     (base, with)
 }
 
+/// Indices of operations that returned an error (lines "E <i> ...").
+fn failed_ops(other: &[String]) -> Vec<usize> {
+    other.iter().filter_map(|l| l.strip_prefix("E ")).filter_map(|r| r.split(' ').next().and_then(|s| s.parse().ok())).collect()
+}
+
+/// Judge a recovered state when some operations FAILED in the middle of the history (go modes): a
+/// failed write may or may not have taken effect, everything acknowledged must be there.  Per key:
+/// the recovered value is that of the last acknowledged write to the key, or of a failed write to
+/// it that came later.
+fn go_check(h: &History, acked: &[usize], failed: &[usize], rec: &Recovered) -> Result<(), String> {
+    let universe = gens::universe(h.family, (h.nkeys as usize).max(1));
+    let mut tag = 0u32;
+    let mut last_acked: BTreeMap<Vec<u8>, (usize, Option<Vec<u8>>)> = BTreeMap::new();
+    let mut failed_w: BTreeMap<Vec<u8>, Vec<(usize, Option<Vec<u8>>)>> = BTreeMap::new();
+    for (i, op) in h.ops.iter().enumerate() {
+        if let Some(ws) = driver::write_set(&universe, &mut tag, op) {
+            for (k, v) in ws {
+                if acked.contains(&i) {
+                    last_acked.insert(k, (i, v));
+                } else if failed.contains(&i) {
+                    failed_w.entry(k).or_default().push((i, v));
+                }
+            }
+        }
+    }
+    if rec.loads.len() != universe.len() {
+        return Err("not every key could be read".into());
+    }
+    for (k, got) in rec.loads.iter() {
+        let (base_idx, base_val) = match last_acked.get(k) {
+            Some((i, v)) => (Some(*i), v.clone()),
+            None => (None, None),
+        };
+        let mut allowed: Vec<Option<Vec<u8>>> = vec![base_val.clone()];
+        for (i, v) in failed_w.get(k).map(|v| v.as_slice()).unwrap_or(&[]) {
+            if base_idx.map(|b| *i > b).unwrap_or(true) {
+                allowed.push(v.clone());
+            }
+        }
+        if !allowed.contains(got) {
+            return Err(format!("load({}) = {} but the last acknowledged write to it is {} ({} later failed write(s) to it could explain another value, none does)", gens::show(k), driver::show_val(got), driver::show_val(&base_val), allowed.len() - 1));
+        }
+    }
+    let live: Vec<(Vec<u8>, Option<Vec<u8>>)> = rec.loads.iter().filter(|(_, v)| v.is_some()).cloned().collect();
+    let mut live_sorted = live.clone();
+    live_sorted.sort();
+    if rec.scan != live_sorted {
+        return Err("the full scan of the recovered store disagrees with its point reads".into());
+    }
+    Ok(())
+}
+
 fn matches_model(h: &History, rec: &Recovered, m: &driver::Model) -> Result<(), String> {
     let universe = gens::universe(h.family, (h.nkeys as usize).max(1));
     for (k, got) in rec.loads.iter() {
@@ -474,7 +544,8 @@ impl CrashEnum {
             .status();
         let code = st.ok().and_then(|s| s.code());
         let (acked, inflight, other) = acks_of(&root);
-        let fault = matches!(case.mode, Mode::Eio | Mode::Enospc);
+        let fault = matches!(case.mode, Mode::Eio | Mode::Enospc | Mode::EioGo | Mode::EnospcGo);
+        let go = matches!(case.mode, Mode::EioGo | Mode::EnospcGo);
         match code {
             Some(99) => {}
             Some(0) => {
@@ -542,6 +613,17 @@ impl CrashEnum {
             o.excluded.push("R-D".into());
         } else if let Some(e) = &rec.read_error {
             o.fail("crash:read-error", format!("reading the recovered store failed after {desc}: {}", vcore::truncate(e, 400)));
+        } else if go && !failed_ops(&other).is_empty() {
+            let failed = failed_ops(&other);
+            o.label(format!("go:operations-failed:{}", match failed.len() { 1 => "1", 2..=4 => "2-4", _ => "5+" }));
+            if acked.iter().any(|a| failed.iter().any(|f| a > f)) {
+                o.label("go:acknowledged-after-a-reported-error");
+            }
+            if let Err(e) = go_check(&case.history, &acked, &failed, &rec) {
+                o.fail("crash:lost-after-reported-error", format!("after an injected {:?} at mutating call {} ({class}) that was reported to the caller, the history went on ({} operations failed, {} acknowledged) and the process died at its end: {e}; failed operations {failed:?}, acknowledged {acked:?}", case.mode, case.k, failed.len(), acked.len()));
+            } else {
+                o.label("recovered:acked+some-failed-ops");
+            }
         } else {
             let (base, with) = expected(&case.history, &acked, inflight);
             let r1 = matches_model(&case.history, &rec, &base);
@@ -655,6 +737,12 @@ impl Part for CrashEnum {
                 }
                 if ctx.tier == Tier::Thorough || (r >> 8) % 4 == 3 {
                     modes.push(Mode::Enospc);
+                }
+                if ctx.tier == Tier::Thorough || (r >> 16) % 4 == 1 {
+                    modes.push(Mode::EioGo);
+                }
+                if ctx.tier == Tier::Thorough || (r >> 16) % 4 == 3 {
+                    modes.push(Mode::EnospcGo);
                 }
                 for mode in modes {
                     let case = CrashCase { history: history.clone(), k: *k as u64, mode, cut: vcore::mix(seed ^ (*k as u64) << 8 ^ hi) };
